@@ -1,2 +1,102 @@
-From BFS Require Import Base.Bytes Path.GoPath Path.Iterate Sort.Order.
-Example placeholder : less s_root [sep; 97] = true. Proof. reflexivity. Qed.
+(** C19 — depth ordering and ancestor enumeration are correct for all paths.
+    Only statements here; proofs are in Proofs/C19Facts.v. *)
+From BFS Require Import Base.Bytes Path.GoPath Path.PathSpec Path.Iterate Sort.Order.
+From BFS Require Import Proofs.C19Facts.
+
+(** LessFilePathSeparators is a strict total order on all byte strings. *)
+Theorem C19_less_irrefl : forall a, less a a = false.
+Proof. exact less_irrefl. Qed.
+Print Assumptions C19_less_irrefl.
+
+Theorem C19_less_trans : forall a b c, less a b = true -> less b c = true -> less a c = true.
+Proof. exact less_trans. Qed.
+Print Assumptions C19_less_trans.
+
+Theorem C19_less_total : forall a b, a <> b -> less a b = true \/ less b a = true.
+Proof. exact less_total. Qed.
+Print Assumptions C19_less_total.
+
+(** Every proper ancestor of a cleaned path is strictly smaller (root smallest). *)
+Theorem C19_ancestor_less :
+  forall a p, cleaned a -> cleaned p -> ancestor a p -> less a p = true.
+Proof. exact ancestor_less. Qed.
+Print Assumptions C19_ancestor_less.
+
+(** ByMostFilePathSeparators: every path comes before each of its ancestors,
+    whatever algorithm produced the sorted permutation. *)
+Theorem C19_most_sorted :
+  forall l s, NoDup l -> Forall cleaned l -> Permutation s l -> sorted_by most s ->
+  forall a p, In a s -> In p s -> ancestor a p -> before p a s.
+Proof. exact most_sorted_ancestors. Qed.
+Print Assumptions C19_most_sorted.
+
+(** ByLeastFilePathSeparators: every path comes after each of its ancestors. *)
+Theorem C19_least_sorted :
+  forall l s, NoDup l -> Forall cleaned l -> Permutation s l -> sorted_by least s ->
+  forall a p, In a s -> In p s -> ancestor a p -> before a p s.
+Proof. exact least_sorted_ancestors. Qed.
+Print Assumptions C19_least_sorted.
+
+(** The sorted sequence is unique: it depends neither on the input permutation
+    nor on the sorting algorithm. *)
+Theorem C19_perm_independent_most :
+  forall l s1 s2, NoDup l -> Permutation s1 l -> Permutation s2 l ->
+  sorted_by most s1 -> sorted_by most s2 -> s1 = s2.
+Proof. exact most_sorted_unique. Qed.
+Print Assumptions C19_perm_independent_most.
+
+Theorem C19_perm_independent_least :
+  forall l s1 s2, NoDup l -> Permutation s1 l -> Permutation s2 l ->
+  sorted_by least s1 -> sorted_by least s2 -> s1 = s2.
+Proof. exact least_sorted_unique. Qed.
+Print Assumptions C19_perm_independent_least.
+
+(** The model's sort returns such a sorted permutation. *)
+Theorem C19_sort_most_ok :
+  forall l, NoDup l -> Permutation (sort_most l) l /\ sorted_by most (sort_most l).
+Proof. exact sort_most_ok. Qed.
+Print Assumptions C19_sort_most_ok.
+
+Theorem C19_sort_least_ok :
+  forall l, NoDup l -> Permutation (sort_least l) l /\ sorted_by least (sort_least l).
+Proof. exact sort_least_ok. Qed.
+Print Assumptions C19_sort_least_ok.
+
+(** IterateDirTree on a cleaned path visits exactly the ancestor chain,
+    for every byte string (any Unicode, valid UTF-8 or not). *)
+Theorem C19_iterate :
+  forall p, cleaned p -> iterate_dir_tree p (fun _ => true) = (chain p, false).
+Proof. exact iterate_all. Qed.
+Print Assumptions C19_iterate.
+
+(** With a visitor that may refuse: the visited list is the shortest prefix of
+    the chain that ends at the first refused element; aborted iff one exists. *)
+Theorem C19_iterate_stop :
+  forall p v, cleaned p ->
+  let '(vis, ab) := iterate_dir_tree p v in
+  (ab = false -> vis = chain p /\ Forall (fun x => v x = true) (chain p)) /\
+  (ab = true -> exists pre x post, chain p = pre ++ x :: post /\ vis = pre ++ [x] /\
+                 Forall (fun y => v y = true) pre /\ v x = false).
+Proof. exact iterate_stop. Qed.
+Print Assumptions C19_iterate_stop.
+
+(** What the chain is: each once, exactly the path and its proper ancestors,
+    shallowest first, ending with the path itself. *)
+Theorem C19_chain_spec :
+  forall p, cleaned p ->
+  NoDup (chain p) /\ last (chain p) [] = p /\ sorted_by least (chain p) /\
+  (forall a, In a (chain p) <-> (cleaned a /\ (a = p \/ ancestor a p))).
+Proof. exact chain_spec. Qed.
+Print Assumptions C19_chain_spec.
+
+(** Non-vacuity: concrete non-trivial instances of the hypotheses. *)
+Example C19_example_chain :
+  let p := [47; 100; 47; 195; 164] (* "/d/ä" *) in
+  cleaned p /\ chain p = [[47]; [47; 100]; p] /\ iterate_dir_tree p (fun _ => true) = (chain p, false).
+Proof. vm_compute. repeat split; reflexivity. Qed.
+
+Example C19_example_sort :
+  let l := [[47; 97]; [47]; [47; 97; 47; 98]; [47; 98]] in
+  sort_most l = [[47; 97; 47; 98]; [47; 98]; [47; 97]; [47]] /\
+  sort_least l = [[47]; [47; 97]; [47; 98]; [47; 97; 47; 98]].
+Proof. vm_compute. split; reflexivity. Qed.
